@@ -11,6 +11,7 @@ static char * hc_line = NULL;
 static size_t hc_cap = 0;
 static char * hc_tok[HC_MAXTOK];
 static int hc_ntok;
+static int hc_was_case;	/* the line just read is a `case` line: its echo is flushed at once */
 
 /* Read one line and split it on spaces; returns 0 at EOF. */
 static int
@@ -29,6 +30,7 @@ hc_next(void)
 		    p = strtok(NULL, " "))
 			hc_tok[hc_ntok++] = p;
 	} while (hc_ntok == 0);
+	hc_was_case = (strcmp(hc_tok[0], "case") == 0);
 	return (1);
 }
 
@@ -81,5 +83,7 @@ hc_puthex(const uint8_t * b, size_t n)
 		printf("%02x", b[i]);
 }
 
-#define HC_END() do { putchar('\n'); } while (0)
+/* End of an answer line.  The echo of `case n` is flushed immediately so that a crash inside case n
+ * is attributed to case n (and the answers of the completed cases are not lost). */
+#define HC_END() do { putchar('\n'); if (hc_was_case) fflush(stdout); } while (0)
 #endif
